@@ -1045,8 +1045,11 @@ impl<K: AsRef<Key>> ServerSequence<K> {
                 &variables,
             )
         };
-        self.context.apply_signature(mac.as_ref());
-        let mac = self.key().signature_slice(&mac);
+        // The MAC carried over into the digest of the next message is the
+        // MAC as transmitted, i.e., after truncation (RFC 8945, section
+        // 5.2.2.1). This is also what `ClientSequence` applies.
+        let mac = &mac.as_ref()[..self.key().signing_len()];
+        self.context.apply_signature(mac);
         self.key().complete_message(message, &variables, mac)
     }
 
